@@ -1,0 +1,45 @@
+//go:build verif
+
+package cache
+
+import (
+	"sync/atomic"
+
+	"github.com/IrineSistiana/mosproxy/internal/verifhook"
+)
+
+// Ownership tracking of pooled cache entries for the runtime verification
+// build: an entry that is released while it is already released (and has
+// not been handed out again) ends up twice in the pool, i.e. will later be
+// owned by two cache keys at once.
+
+const verifOn = true
+
+const (
+	verifEntryOwned    = 1
+	verifEntryReleased = 2
+)
+
+type verifEntryState struct {
+	s atomic.Uint32
+}
+
+var verifEntryReleases, verifEntryNews atomic.Uint64
+
+func VerifEntryCounters() (news, releases uint64) {
+	return verifEntryNews.Load(), verifEntryReleases.Load()
+}
+
+func verifNewEntry() *cacheEntry {
+	e := cacheEntryPool.Get().(*cacheEntry)
+	e.verifState.s.Store(verifEntryOwned)
+	verifEntryNews.Add(1)
+	return e
+}
+
+func verifReleaseEntry(e *cacheEntry) {
+	verifEntryReleases.Add(1)
+	if old := e.verifState.s.Swap(verifEntryReleased); old == verifEntryReleased {
+		verifhook.Report("double-release", "cacheEntry released twice without being re-acquired")
+	}
+}
